@@ -191,6 +191,72 @@ func checkC18(c *Ctx, r *Result, tier string) {
 			nScan++
 			site := ord.key(key, "newline-test", accessPath(x))
 			pos := c.Pos(c.InstrPos(in))
+			// the test is applied on every iteration: no way round the loop that bypasses it, other
+			// than through a successful comparison of the same rune with another constant
+			if scc := sccOf(cmp.Block()); scc != nil {
+				var headers []*ssa.BasicBlock
+				for b := range scc {
+					for _, p := range b.Preds {
+						if !scc[p] {
+							headers = append(headers, b)
+							break
+						}
+					}
+				}
+				excludes := func(b *ssa.BasicBlock, succIdx int) bool {
+					ifi, ok := b.Instrs[len(b.Instrs)-1].(*ssa.If)
+					if !ok {
+						return false
+					}
+					bo, ok := ifi.Cond.(*ssa.BinOp)
+					if !ok || (bo.Op != token.EQL && bo.Op != token.NEQ) {
+						return false
+					}
+					var k int64
+					var isC bool
+					if bo.X == x {
+						k, isC = constInt(bo.Y)
+					} else if bo.Y == x {
+						k, isC = constInt(bo.X)
+					}
+					if !isC || k == 10 {
+						return false
+					}
+					// x == k (≠ newline) holds on this edge
+					return (bo.Op == token.EQL && succIdx == 0) || (bo.Op == token.NEQ && succIdx == 1)
+				}
+				bypass := false
+				for _, h := range headers {
+					seenB := map[*ssa.BasicBlock]bool{h: true}
+					work := []*ssa.BasicBlock{h}
+					for len(work) > 0 && !bypass {
+						b := work[len(work)-1]
+						work = work[:len(work)-1]
+						if b == cmp.Block() {
+							continue
+						}
+						for i, sx := range b.Succs {
+							if !scc[sx] || excludes(b, i) {
+								continue
+							}
+							if sx == h {
+								bypass = true // back at the header without having passed the test
+								break
+							}
+							if !seenB[sx] {
+								seenB[sx] = true
+								work = append(work, sx)
+							}
+						}
+					}
+				}
+				if bypass {
+					r.Instance("R18d", site, pos, "finding", "an iteration of the scan loop can bypass the newline test", true)
+					r.Report(Finding{Rule: "R18d", Site: site, Pos: pos,
+						Msg: fmt.Sprintf("%s: the loop that examines the runes can complete an iteration without applying the newline test to %s (the test sits under another condition): a line break in that position is not counted, and every later token is reported one line too low", key, accessPath(x))})
+					return
+				}
+			}
 			// the scanned variable: the loop-header phi x is, or flows into
 			var H *ssa.Phi
 			if p, isPhi := x.(*ssa.Phi); isPhi && isLoopHeaderPhi(p) {
